@@ -93,6 +93,10 @@ def run(rep):
         combos = [(k, hid, d) for k, _ in KINDS for hid in (False, True) for d in (False, True)]
         if variant == 1:
             combos = list(reversed(combos))
+        if variant == -1:
+            combos = [c for c in combos if c[2]]        # every override has a default: the map starts empty and is only filled by inserts
+        if variant == -2:
+            combos = [c for c in combos if not c[2]]    # no override has a default: the map is never mutated
         if variant >= 2:
             # thorough tier: seeded random sub-lists (length 0..10, repetitions allowed) - only-required, only-optional, single-element lists ..
             import random
@@ -125,7 +129,7 @@ def run(rep):
     def value_text(kind, x):
         return f'if {x} {{ 1.0 }} else {{ 0.0 }}' if kind == 'Bool' else f'{x} as f64'
     n_rows = 0
-    variants = (0, 1) if rep.tier != 'thorough' else tuple(range(0, 26))
+    variants = (0, 1, -1, -2) if rep.tier != 'thorough' else (-1, -2) + tuple(range(0, 26))
     for variant in variants:
         model, rows = world(variant)
         try:
